@@ -125,13 +125,13 @@ class World:
                 world.orig_log.append(rec)
                 world.step_orig.append(rec)
 
-            def on_packet_from_circuit(self, source_address, data, circuit_id):
-                # on_data hands payloads that look like IPv8 packets of this community to this dispatcher
-                if len(data) > 26 and data[22] == 0x63 and data[23:26] == b"d5:":
+            def on_probe_message(self, source_address, data, circuit_id):
+                # on_data hands payloads that look like packets of this community to on_packet_from_circuit, which
+                # dispatches message id 0x63 to this handler (registered below through add_cell_handler)
+                if len(data) > 26 and data[23:26] == b"d5:":
                     rec = (world.node_of[id(self)], circuit_id, source_address, data)
                     world.orig_log.append(rec)
                     world.step_orig.append(rec)
-                return super().on_packet_from_circuit(source_address, data, circuit_id)
 
         # TunnelExitSocket.enable / create_transports / sendto / queue stay REAL; only the opening of the two UDP
         # transports is replaced by an awaitable the harness completes when it chooses ("gate"), so that the phases
@@ -161,6 +161,13 @@ class World:
             s.peer_flags = set(flags)
             node = MockIPv8("curve25519", Node, settings=s)
             node.overlay.cancel_all_pending_tasks()
+            probe_cls = type("ProbePayload", (), {"msg_id": 0x63})
+            import inspect
+            if "from_exit" in inspect.signature(TunnelCommunity.add_cell_handler).parameters:
+                # a tree that only lets explicitly registered messages come back through an exit node
+                node.overlay.add_cell_handler(probe_cls, node.overlay.on_probe_message, from_exit=True)
+            else:
+                node.overlay.add_cell_handler(probe_cls, node.overlay.on_probe_message)
             ep = node.endpoint
 
             def send(ep_self, addr, packet, _w=world):
@@ -934,7 +941,7 @@ class History:
             re_ = rng.random() < 0.5
             if kind == "junk":
                 # first byte: no handler has this id, so a hop-less circuit (which decrypts nothing) ignores it as well
-                body = bytes([rng.choice([99, 150, 255])]) + bytes(rng.getrandbits(8) for _ in range(rng.choice([5, 30, 60])))
+                body = bytes([rng.choice([150, 200, 255])]) + bytes(rng.getrandbits(8) for _ in range(rng.choice([5, 30, 60])))
                 cell = CellPayload(cid, body, False, re_)
                 line = f"fc {node} {w.aidx(src)} {cid} 0 {int(re_)} [] junk"
             elif kind == "splice":
@@ -1046,7 +1053,10 @@ class History:
             before = w.snapshot(node)
             _, dh = w.ov(att).crypto.generate_diffie_secret()
             ident = rng.getrandbits(16)
-            pl = CreatePayload(cid, ident, w.nodes[att].my_peer.public_key.key_to_bin(), dh)
+            # node_public_key is self-declared: the sender may claim its own key or any public key it knows
+            claim = self.force.get("claim_pk", att if rng.random() < 0.7 else rng.randint(1, w.n))
+            self.ctx.count("create_claims:own-key" if claim == att else "create_claims:another-peers-key")
+            pl = CreatePayload(cid, ident, w.nodes[claim].my_peer.public_key.key_to_bin(), dh)
             body = bytes([pl.msg_id]) + w.ov(att).serializer.pack_serializable(pl)[4:]
             cell = CellPayload(cid, body, True, rng.random() < 0.5)
             w.begin()
@@ -1060,7 +1070,7 @@ class History:
                 self.forged_noop_check("TunnelCommunity.on_create:foreign-create-disturbs",
                                        f"CREATE for the unused id {cid} at node {node}", node, before_ids, before,
                                        allow_new_entries=True)
-            self.record(f"fc {node} {w.aidx(src)} {cid} 1 {int(cell.relay_early)} [] create:{ident + 1}:{att}:0",
+            self.record(f"fc {node} {w.aidx(src)} {cid} 1 {int(cell.relay_early)} [] create:{ident + 1}:{claim}:0",
                         node, "forge-pt_create", busy, ("forge", "pt_create", role, len(w.step_sends)))
             self.ctx.count(f"forge_role:pt_create:{role}")
         else:
@@ -1294,6 +1304,8 @@ class History:
                 self.deliver_where(lambda h, p: w.addr_idx.get(p.dst) == 2 and h[3] == 1 and h[5] == 3)
             else:
                 self.force = {"kind": "pt_create", "target": (3, xid), "src": w.addr(w.n + 1)}
+                if second == "impostor":          # the outsider claims the old owner's public key in its CREATE
+                    self.force["claim_pk"] = 1
                 self.act_forge()
                 self.force = {}
             self.deliver_where(lambda h, p: w.addr_idx.get(p.dst) == 4 and h[3] == 1 and h[5] == 2)   # E's CREATE at node 4
@@ -1664,7 +1676,7 @@ def run_reuses(ctx: Ctx, use_model: bool):
                 return
     m = 0
     for late, rest in ((55, 6), (52, 9), (51, 58), (30, 8)):
-        for second in ("originator", "outsider"):
+        for second in ("originator", "outsider", "impostor"):
             for destroy_first in (True, False):
                 h = History(ctx, ctx.rng.getrandbits(48))
                 h.expiry = {"late": late, "rest": rest, "second": second, "destroy_first": destroy_first}
